@@ -377,6 +377,13 @@ def _check(ctx, run, flags=(), label="default"):
         want_c = dict(counters)
         want_c[fld] += 1
         run.ob("R4", "TestResult::%s folded: increments %s by one and nothing else%s" % (meth, fld, sfx), cf.site, after == want_c, witness={k_: v_ for k_, v_ in after.items() if counters.get(k_) != v_})
+    # the counts the summary prints are recorded where the work is done: every assert entry point counts its check exactly once and
+    # first, on every operand case (shared with C03.R1); the registry counts every test once, run or filtered out, whatever the filters
+    # select (shared with C02.R1)
+    from .C03 import assert_rules
+    from .C02 import registry_rules
+    assert_rules(prog, run, "R4")
+    registry_rules(prog, run, "R4", "accounting")
     for fc, rc, ic in itertools.product((0, 1, 7), (0, 1, 7), (0, 1, 7)):
         ev = Evaluator(prog, isf, env={"failureCount_": fc, "runCount_": rc, "ignoredCount_": ic})
         ev.inline = {"TestResult::getFailureCount", "TestResult::getRunCount", "TestResult::getIgnoredCount"}
